@@ -36,6 +36,18 @@ func (e *Engine) assumeGlobals(st *State) {
 			e.Assumed[fmt.Sprintf("global %s.%s holds its constant initial value (checked: no write outside init)", sp.Pkg.Name(), g.Name)] = true
 			continue
 		}
+		if g.Kind == "nonnil" {
+			// a package-level func/pointer/interface variable initialised at
+			// declaration and never assigned again
+			gv, ok := sp.Members[g.Name].(*ssa.Global)
+			if !ok {
+				panic(fmt.Sprintf("spec error: global %s.%s not found", g.Pkg, g.Name))
+			}
+			a := &Addr{Kind: aGlobal, Glob: gv, Base: gv.Type().(*types.Pointer).Elem()}
+			st.assume(not(eq(e.load(st, a), "0")))
+			e.Assumed[fmt.Sprintf("global %s.%s is set at declaration (non-nil) and never assigned again (checked: no write outside init)", sp.Pkg.Name(), g.Name)] = true
+			continue
+		}
 		if g.Kind != "maplit" {
 			continue
 		}
